@@ -89,9 +89,20 @@ func NewEngine(pass *analysishelper.EnhancedPass) *Engine {
 // and then offsets in the file.
 func (e *Engine) Diagnostics(grouping bool) []analysis.Diagnostic {
 	// First sort the conflicts by position such that similar conflicts are grouped under the
-	// first diagnostic.
+	// first diagnostic. The file names of the positions are relative to the current working
+	// directory, and conflicts found with the facts of upstream packages can lie in files of
+	// different directories: "c/c.go" and "d/d.go" seen from the parent directory are "c.go" and
+	// "../d/d.go" seen from c/. So we order the files by their absolute names, such that the
+	// first diagnostic of a group (and with it the reported position and message) is the same
+	// no matter where the analysis is started.
+	sortKeys := make(map[string]string)
+	for _, c := range e.conflicts {
+		if _, ok := sortKeys[c.position.Filename]; !ok {
+			sortKeys[c.position.Filename] = tokenhelper.AbsFromCwd(c.position.Filename)
+		}
+	}
 	slices.SortFunc(e.conflicts, func(a, b conflict) int {
-		if n := cmp.Compare(a.position.Filename, b.position.Filename); n != 0 {
+		if n := cmp.Compare(sortKeys[a.position.Filename], sortKeys[b.position.Filename]); n != 0 {
 			return n
 		}
 		return cmp.Compare(a.position.Offset, b.position.Offset)
